@@ -477,7 +477,7 @@ class AlwaysDivisibleQuantity {
     // Divide a `Quantity` by this always-divisible quantity type.
     template <typename U2, typename R2>
     friend constexpr auto operator/(Quantity<U2, R2> q2, AlwaysDivisibleQuantity q) {
-        return make_quantity<UnitQuotientT<U2, U>>(q2.in(U2{}) / q.q_.in(U{}));
+        return make_quantity_unless_unitless<UnitQuotientT<U2, U>>(q2.in(U2{}) / q.q_.in(U{}));
     }
 
     // Divide any non-`Quantity` by this always-divisible quantity type.
